@@ -252,6 +252,7 @@ class Gen:
             self.nonce_family(cv, add)
             self.priv_sweep(cv, add, hs, tapes)
             self.inplace(cv, add, tapes)
+            self.one_check_fails(cv, add)
             # error order of sign
             H = hs[5]
             add("sign %d %s %s %s %s" % (ci, hx(OID_BAD[3]), hx(H), hx(cv.n2b(0)), "-"), kind="signbad", cv=cv, expect=BAD_OID)
@@ -298,6 +299,7 @@ class Gen:
         out.append(("twist-x", cv.n2b(xt) + cv.n2b(self.rng.randrange(p))))
         out.append(("off-curve", cv.n2b(x) + cv.n2b((y + 1) % p)))
         out.append(("zero", bytes(2 * no)))
+        out.append(("y=0", cv.n2b(self.rng.randrange(1, p)) + bytes(no)))      # "order 2" under the curve-oblivious formulas
         out.append(("x=p", cv.n2b(p) + cv.n2b(y)))
         out.append(("y=p", cv.n2b(x) + cv.n2b(p)))
         out.append(("x+p", cv.n2b(x + p) + cv.n2b(y)) if x + p < cv.W else ("x=max", b"\xff" * no + cv.n2b(y)))
@@ -374,6 +376,71 @@ class Gen:
                 add("wrap %d %s %s %s %s" % (ci, hx(key), hdr, hx(Q), tape), kind="wrap-ref", cv=cv)
                 add("wrapip %d %s %s %s %s %d" % (ci, hx(key), hdr, hx(Q), tape, mode), kind="wrapip", cv=cv, d=d, Q=Q, key=key, hdr=hdr)
                 self.count("wrap:in-place mode %d" % mode)
+
+    # ---- inputs that fail EXACTLY ONE check and are consistent with everything the rest of the computation would do
+    def one_check_fails(self, cv, add):
+        """If a rejecting branch were skipped, these inputs would sail through the remaining computation:
+        * bignKeyUnwrap: x with x^3+ax+b a NON-residue, y' = the candidate root the code computes, theta = <x(d (x, y'))>_256
+          under the curve-oblivious addition formulas (the same group law on the curve through (x, y'): the formulas never
+          use b), body = belt-KWP(key || header) under theta: only the test y'^2 = x^3+ax+b stands between it and ERR_OK;
+        * bignVerify / bignIdExtract: public key (x0, 0) (its double is O under the formulas, so an even multiple vanishes) with
+          the signature (s0, (1 - H) mod q), s0 = <belt-hash(oid || <G> || H)>_l even: only the curve test rejects it
+          (this is the forgery of fix-1 for arbitrary x0);
+        * bignVerify / bignIdExtract: (s0, s1) with (s1 + H) G + (s0 + 2^l) Q = O for the genuine key: only the test R != O
+          rejects it."""
+        ci, no, q, p, l = cv.ci, cv.no, cv.q, cv.p, cv.l
+        d, Q = cv.keys[2]
+        oid = OID_HBELT
+        # (1) key transport: consistent off-curve tokens
+        xs = []
+        x = 1
+        while len(xs) < 2:
+            if cv.lift(x) is None:
+                xs.append(x)
+            x += 1
+        while len(xs) < (4 if (self.thorough or ci == 0) else 3):
+            x = self.rng.randrange(p)
+            if cv.lift(x) is None:
+                xs.append(x)
+        cases = []
+        for i, x in enumerate(xs):
+            t = (x * x * x + cv.a * x + cv.b) % p
+            y = pow(t, (p + 1) // 4, p)
+            T = cv.mul(d, (x, y))
+            if T is None:
+                continue
+            key = self.rb(16 + 8 * i)
+            hdr = ["N", hx(bytes(16)), hx(self.rb(16))][i % 3]
+            cases.append((x, cv.n2b(T[0])[:32], key, hdr))
+        bodies = self.run_c(["wble %s %s" % (hx(th), hx(key + (bytes(16) if hdr == "N" else unh(hdr)))) for _, th, key, hdr in cases])
+        for (x, th, key, hdr), body in zip(cases, bodies):
+            tok = cv.n2b(x) + unh(body)
+            for opn in ("unwrap", "unwrapip"):
+                add("%s %d %s %s %s" % (opn, ci, hx(tok), hdr, hx(cv.n2b(d))), kind="unwrap", cv=cv, lab="token:off-curve-consistent", key=key,
+                    tok=tok, orig=tok, hdr=hdr, hdr0=hdr, d=d, d0=d)
+            self.count("one-check:unwrap off-curve consistent")
+        # (2) verification under (x0, 0)
+        for x0 in [0, 1, self.rng.randrange(p)] if (self.thorough or ci == 0) else [self.rng.randrange(p)]:
+            Hs = [self.rb(no) for _ in range(10)]
+            hv = self.run_c(["hash " + hx(oid + bytes(no) + H) for H in Hs])
+            for H, h in zip(Hs, hv):
+                s0b = unh(h)[: no // 2]
+                if s0b[0] % 2 == 0:
+                    sig = s0b + cv.n2b((1 - int.from_bytes(H, "little")) % q)
+                    pub = cv.n2b(x0) + bytes(no)
+                    add("vfy %d %s %s %s %s" % (ci, hx(oid), hx(H), hx(sig), hx(pub)), kind="vfy", cv=cv, oid=oid, H=H, sig=sig, pub=pub,
+                        lab="one-check:pub=(x0,0)")
+                    add("idext %d %s %s %s %s" % (ci, hx(oid), hx(H), hx(sig), hx(pub)), kind="idext-alt", cv=cv, vargs=(oid, H, sig, pub))
+                    self.count("one-check:verify under (x0,0)")
+                    break
+        # (3) R = O
+        for H in [cv.n2b(cv.W - 1), self.rb(no)]:
+            s0 = self.rng.getrandbits(l)
+            s1 = (-(s0 + (1 << l)) * d - int.from_bytes(H, "little")) % q
+            sig = cv.n2b(s0, no // 2) + cv.n2b(s1)
+            add("vfy %d %s %s %s %s" % (ci, hx(oid), hx(H), hx(sig), hx(Q)), kind="vfy", cv=cv, oid=oid, H=H, sig=sig, pub=Q, lab="one-check:R=O")
+            add("idext %d %s %s %s %s" % (ci, hx(oid), hx(H), hx(sig), hx(Q)), kind="idext-alt", cv=cv, vargs=(oid, H, sig, Q))
+            self.count("one-check:R=O")
 
     def constructed(self, cv, add):
         ci, no, q, l = cv.ci, cv.no, cv.q, cv.l
